@@ -174,6 +174,13 @@ func scenarios(tier string) []*hn.Scenario {
 		add(hn.NewBuilder("D remove-twice-then-register").Std("t1", "p1", P, D).RemovePipe("t1", "p1").RemovePipe("t1", "p1").
 			Std("t1", "p2", R, D), cancel, 2, true)
 		add(hn.NewBuilder("D remove-unknown-of-other-type").Std("t1", "p1", P, D).Std("t2", "p1", P, D).RemovePipe("t2", "ghost").RemovePipe("t2", "p1").RemovePipe("t2", "p1"), cancel, 2, true)
+		// removal together with the nodes: what is gone receives nothing, what shared nodes with it goes on
+		add(hn.NewBuilder("D remove-with-nodes").Std("t1", "p1", P, D).Std("t1", "p2", R, D).RemovePipeAndNodes("t1", "p1"), cancel, 2, true)
+		add(hn.NewBuilder("D remove-with-nodes shared").
+			Node("f", "f", el.NodeTypeFilter, P).Node("m", "m", el.NodeTypeFormatter, P).
+			Node("s1", "s1", el.NodeTypeSink, D).Node("s2", "s2", el.NodeTypeSink, D).
+			Pipe("t1", "p1", "f", "m", "s1").Pipe("t1", "p2", "f", "m", "s2").RemovePipeAndNodes("t1", "p1"), cancel, 2, true)
+		add(hn.NewBuilder("D remove-last-with-nodes").Std("t1", "p1", P, D).RemovePipeAndNodes("t1", "p1"), cancel, 2, true)
 		// overwrite twice, then remove the other pipeline
 		add(hn.NewBuilder("D overwrite-twice").Std("t1", "p1", P, D).Std("t1", "p2", P, D).
 			Node("m3", "m3", el.NodeTypeFormatter, P).Node("s3", "s3", el.NodeTypeSink, D).
@@ -217,7 +224,7 @@ func main() {
 			"recording nodes are harness code; they log (node, event pointer, payload pointer, returned event, error, call/return sequence numbers)",
 			"preemption bound 1-2 per scenario (reported in each sample); sync.Map.Range order is an explored permutation",
 		},
-		QuickBudget:    150 * time.Second,
+		QuickBudget:    300 * time.Second,
 		ThoroughBudget: 40 * time.Minute,
 	})
 }
